@@ -25,7 +25,11 @@ TRUSTED = ["HKDF modelled as an uninterpreted function per (parameters, input le
            "Fermat: h^(p-1) = 1 mod p for h != 0 (pow contract), p prime as published"]
 ASSUMPTIONS = ["integer groups: non-identity of arbitrary_element(seed) assumes HKDF(seed) mod p is not a (p-1)/q-th root "
                "of unity (probability 1/q; verified for the shipped seeds as ground facts)",
-               "password/seed lengths from the stated sets"]
+               "password/seed lengths from the stated sets",
+               "Ed25519 try-and-increment loop: every path with up to 3 (quick) / 6 (thorough) skipped candidates; deep job up to "
+               "24 (quick) / 48 (thorough) skipped candidates of which at most one is an on-curve small-order point; a change that "
+               "only shows after more skipped candidates (probability < 2^-24 per seed) is outside; concrete replay seeds "
+               "exist for up to 19 skipped candidates"]
 
 
 def jobs(tier):
@@ -44,7 +48,13 @@ def jobs(tier):
     for n in ([0, 1, 9, 65, 130] if tier == "quick" else [0, 1, 2, 9, 63, 64, 65, 128, 129, 200]):
         js.append(("job_arb_ed", dict(_name="arbitrary_element Ed25519 seedlen=%d" % n, n=n, incs=3 if tier == "quick" else 6)))
     # the retry loop itself, deep: every path with up to `incs` skipped candidates
-    js.append(("job_arb_ed", dict(_name="arbitrary_element Ed25519 seedlen=2, deep retry loop", n=2, incs=24 if tier == "quick" else 48)))
+    # (at most `max_small` of the skipped candidates are on-curve points of small order -- the curve has only 5 such y
+    # values in total -- the others are off-curve; without that cut the number of paths doubles per candidate)
+    js.append(("job_arb_ed", dict(_name="arbitrary_element Ed25519 seedlen=2, deep retry loop", n=2, incs=24 if tier == "quick" else 48,
+                                  max_small=1)))
+    if tier != "quick":
+        js.append(("job_arb_ed", dict(_name="arbitrary_element Ed25519 seedlen=2, retry loop with <= 3 small-order candidates", n=2,
+                                      incs=12, max_small=3)))
     js.append(("job_constants", dict(_name="released M/N/S constants (ground)")))
     return js
 
@@ -146,14 +156,14 @@ def job_arb_int(J, gname, n):
     Flags.pow_stub = None
 
 
-def job_arb_ed(J, n, incs):
+def job_arb_ed(J, n, incs, max_small=None):
     """the real try-and-increment loop over abstract curve points (kernel contracts K1-K5), HKDF/xrecover/isoncurve stubs"""
     from symx.edabs import EdAbs, AbsPt
     E = loader.MODS["ed25519_basic"]
     Q, L = E.Q, E.L
     XR = z3.Function("XRECOVER", z3.IntSort(), z3.IntSort())
     ONC = z3.Function("OnCurve", z3.IntSort(), z3.IntSort(), z3.BoolSort())
-    J.bounds.update(seed_len=n, max_increments=incs)
+    J.bounds.update(seed_len=n, max_increments=incs, max_small_order_candidates=max_small if max_small is not None else "any")
 
     def h(ctx):
         A = EdAbs(E)
@@ -164,6 +174,8 @@ def job_arb_ed(J, n, incs):
         def xrec(y):
             if len(tried) > incs:
                 raise PathAbort("more than %d increments" % incs)
+            if max_small is not None and len(pts) > max_small:      # every earlier on-curve candidate was a small-order skip
+                raise PathAbort("more than %d small-order candidates" % max_small)
             r = XR(T(y))
             ctx.side += [r >= 0, r < Q]
             tried.append(T(y))
@@ -187,7 +199,7 @@ def job_arb_ed(J, n, incs):
         finally:
             E.xrecover, E.isoncurve, E.xform_affine_to_extended = saved
             A.uninstall()
-    for r in J.explore(h, max_paths=200, fallback=("arb_ed", dict(seed=bytes(n)))):
+    for r in J.explore(h, max_paths=(2 ** (incs + 3) + 50 if max_small is None else (incs * incs + 6 * incs + 200 if max_small <= 1 else 8000)), fallback=("arb_ed", dict(seed=bytes(n)))):
         w = r.ctx.data["w"]
         J.reach(r)
         cex = lambda m, w=w: dict(seed=w["seed"].model_bytes(m))
